@@ -184,7 +184,13 @@ def _drive(case, ctx, make_reduction, S, lid, strategy, scitype, n, wl, fh, nx, 
         fh_in = "fit"
     feasible = wl + (1 if strategy == "recursive" else hmax) <= n
     try:
-        f.fit(y, X, fh=fh if fh_in in ("fit", "both") else None)
+        # the same horizon as relative steps or (a quarter of the cases without follow-up) as absolute time points
+        fha = fh
+        if case["then"] == "none" and case["dseed"] % 4 == 1:
+            from sktime.forecasting.base import ForecastingHorizon
+            fha = ForecastingHorizon([off + n - 1 + h for h in fh], is_relative=False)
+            ctx.tag("horizon:absolute")
+        f.fit(y, X, fh=fha if fh_in in ("fit", "both") else None)
     except ValueError as e:
         ctx.check("fit.rows", not feasible, "reduce:%s:feasible-config-rejected" % strategy, "feasible configuration rejected: %s" % e)
         return
@@ -230,7 +236,7 @@ def _drive(case, ctx, make_reduction, S, lid, strategy, scitype, n, wl, fh, nx, 
     if nx and strategy == "recursive":
         idx = pd.RangeIndex(off + cur_n, off + cur_n + hmax)
         Xf = pd.DataFrame({"x%d" % j: S[j + 1][cur_n:cur_n + hmax] for j in range(nx)}, index=idx)
-    ok, pred = ctx.call("reduce:%s:predict-exception" % strategy, f.predict, fh if fh_in in ("predict", "both") else None, Xf)
+    ok, pred = ctx.call("reduce:%s:predict-exception" % strategy, f.predict, fha if fh_in in ("predict", "both") else None, Xf)
     if not ok:
         return
     calls = [e for e in lg[before:] if e["op"] == "predict"]
